@@ -11,6 +11,9 @@ functions of Builder.lean / Walk.lean / Functions/Edit.lean.  `lake build JsonbM
   D5  `iterate_object_entries`, `ObjectEntryIterator::{fill_keys, next}` = `fillKeys` / `iterObjLoop`
   D6  pushes in a loop, object builders of raw entries, agreement modulo the text of a panic message
   D7  `concat_jsonb`, `concat` = `Fn.concat`
+  D8  `delete_jsonb_by_name` = `Fn.deleteByName`
+  D9  `BTreeSet` / `BTreeMap` as sorted lists (lawful derived orders), `object_delete_jsonb`, `object_pick_jsonb` = `Fn.objectFilter`
+  D10 `array_insert_jsonb` = `Fn.arrayInsert`
 -/
 import JsonbModel.Proofs.TranslatedAgreeD1
 import JsonbModel.Proofs.TranslatedAgreeD2
@@ -19,3 +22,6 @@ import JsonbModel.Proofs.TranslatedAgreeD4
 import JsonbModel.Proofs.TranslatedAgreeD5
 import JsonbModel.Proofs.TranslatedAgreeD6
 import JsonbModel.Proofs.TranslatedAgreeD7
+import JsonbModel.Proofs.TranslatedAgreeD8
+import JsonbModel.Proofs.TranslatedAgreeD9
+import JsonbModel.Proofs.TranslatedAgreeD10
